@@ -285,6 +285,10 @@ func untype(v interface{}) interface{} {
 		return "\x01go:number:" + string(t)
 	case []byte:
 		return "\x01go:bytes:" + string(t)
+	case float64:
+		if math.IsNaN(t) || math.IsInf(t, 0) {
+			return "\x01go:float64:" + strconv.FormatFloat(t, 'g', -1, 64) // JSON has no spelling for these
+		}
 	}
 	return v
 }
@@ -347,6 +351,9 @@ func retype(v interface{}) interface{} {
 			return json.Number(p[1])
 		case "bytes":
 			return []byte(p[1])
+		case "float64":
+			f, _ := strconv.ParseFloat(p[1], 64)
+			return f
 		}
 	}
 	return v
